@@ -32,6 +32,7 @@ from xmlschema.translation import gettext as _
 from xmlschema.utils.etree import iter_schema_location_hints, iter_schema_namespaces
 from xmlschema.utils.decoding import Empty, raw_encode_attributes, strictly_equal
 from xmlschema.utils.qnames import get_qname
+from xmlschema.utils.urls import normalize_url
 from xmlschema.arguments import XSD_VALIDATION_MODES
 from xmlschema import dataobjects
 from xmlschema.converters import ElementData
@@ -588,10 +589,10 @@ class XsdElement(XsdComponent, ParticleMixin,
                             # can't be extended by instance hints, that would also bypass
                             # the access control settings of this schema.
                             continue
-                        schema.include_schema(url, context.source.base_url)
+                        schema.include_schema(normalize_url(url, context.source.base_url))
                     else:
                         schema = self.schema
-                        schema.import_schema(ns, url, context.source.base_url)
+                        schema.import_schema(ns, normalize_url(url, context.source.base_url))
                     schema.clear()
                     schema.build()
 
@@ -1458,10 +1459,10 @@ class Xsd11Element(XsdElement):
                             # can't be extended by instance hints, that would also bypass
                             # the access control settings of this schema.
                             continue
-                        schema.include_schema(url, context.source.base_url)
+                        schema.include_schema(normalize_url(url, context.source.base_url))
                     else:
                         schema = self.schema
-                        schema.import_schema(ns, url, context.source.base_url)
+                        schema.import_schema(ns, normalize_url(url, context.source.base_url))
                     schema.clear()
                     schema.build()
 
